@@ -43,6 +43,10 @@ pub struct Case {
     /// asked the same queries: a restored model is a model
     #[serde(default)]
     pub roundtrip: u8,
+    /// matrix back end the model is fitted on and asked through: 0 = DenseMatrix, 1 = ndarray (row-major), 2 = ndarray
+    /// (column-major memory layout), 3 = nalgebra DMatrix. The clauses do not depend on how the rows are stored.
+    #[serde(default)]
+    pub backend: u8,
 }
 
 pub struct C12;
@@ -52,10 +56,49 @@ pub struct C12;
 /// generic parameter of the harness.
 pub trait Elem: RealNumber + Sum + Serialize {
     fn restore_kmeans(m: &KMeans<Self>, how: u8) -> Result<KMeans<Self>, String>;
+    /// fit on the chosen matrix back end (via the inherent function or the estimator trait)
+    fn kmeans_fit(rows: &[Vec<f64>], backend: u8, params: KMeansParameters, via_trait: bool) -> Result<KMeans<Self>, smartcore::error::Failed>;
+    /// predict through the chosen matrix back end; labels as f64
+    fn kmeans_predict(m: &KMeans<Self>, rows: &[Vec<f64>], backend: u8, via_trait: bool) -> Result<Vec<f64>, smartcore::error::Failed>;
 }
 macro_rules! elem {
     ($t:ty) => {
         impl Elem for $t {
+            fn kmeans_fit(rows: &[Vec<f64>], backend: u8, params: KMeansParameters, via_trait: bool) -> Result<KMeans<$t>, smartcore::error::Failed> {
+                use ndarray::ShapeBuilder;
+                let (n, p) = (rows.len(), rows[0].len());
+                let c = |i: usize, j: usize| rows[i][j] as $t;
+                macro_rules! go {
+                    ($m:ty, $x:expr) => {{
+                        let x: $m = $x;
+                        if via_trait { <KMeans<$t> as UnsupervisedEstimator<$m, KMeansParameters>>::fit(&x, params) } else { KMeans::<$t>::fit(&x, params) }
+                    }};
+                }
+                match backend {
+                    1 => go!(ndarray::Array2<$t>, ndarray::Array2::from_shape_fn((n, p), |(i, j)| c(i, j))),
+                    2 => go!(ndarray::Array2<$t>, ndarray::Array2::from_shape_fn((n, p).f(), |(i, j)| c(i, j))),
+                    3 => go!(nalgebra::DMatrix<$t>, nalgebra::DMatrix::from_fn(n, p, |i, j| c(i, j))),
+                    _ => go!(DenseMatrix<$t>, to_t_matrix(rows)),
+                }
+            }
+            fn kmeans_predict(m: &KMeans<$t>, rows: &[Vec<f64>], backend: u8, via_trait: bool) -> Result<Vec<f64>, smartcore::error::Failed> {
+                use ndarray::ShapeBuilder;
+                let (n, p) = (rows.len(), rows[0].len());
+                let c = |i: usize, j: usize| rows[i][j] as $t;
+                macro_rules! go {
+                    ($m:ty, $v:ty, $x:expr) => {{
+                        let x: $m = $x;
+                        let r: Result<$v, smartcore::error::Failed> = if via_trait { Predictor::<$m, $v>::predict(m, &x) } else { m.predict(&x) };
+                        r.map(|v| v.iter().map(|l| *l as f64).collect())
+                    }};
+                }
+                match backend {
+                    1 => go!(ndarray::Array2<$t>, ndarray::Array1<$t>, ndarray::Array2::from_shape_fn((n, p), |(i, j)| c(i, j))),
+                    2 => go!(ndarray::Array2<$t>, ndarray::Array1<$t>, ndarray::Array2::from_shape_fn((n, p).f(), |(i, j)| c(i, j))),
+                    3 => go!(nalgebra::DMatrix<$t>, nalgebra::RowDVector<$t>, nalgebra::DMatrix::from_fn(n, p, |i, j| c(i, j))),
+                    _ => go!(DenseMatrix<$t>, Vec<$t>, to_t_matrix(rows)),
+                }
+            }
             fn restore_kmeans(m: &KMeans<$t>, how: u8) -> Result<KMeans<$t>, String> {
                 if how == 1 {
                     bincode::serialize(m).map_err(|e| e.to_string()).and_then(|b| bincode::deserialize::<KMeans<$t>>(&b).map_err(|e| e.to_string()))
@@ -305,7 +348,6 @@ impl C12 {
         let data = &case.data;
         let n = data.len();
         let p = data[0].len();
-        let x: DenseMatrix<T> = to_t_matrix(data);
         let slog = Rc::new(RefCell::new(StepLog::default()));
         let guard = TapeGuard::install(&case.tape);
         let res = {
@@ -370,11 +412,7 @@ impl C12 {
                     _ => KMeansParameters { k: case.k, max_iter: case.max_iter },
                 };
                 // ctor / 3: the inherent functions or the estimator traits of smartcore::api
-                if case.ctor / 3 == 1 {
-                    <KMeans<T> as UnsupervisedEstimator<DenseMatrix<T>, KMeansParameters>>::fit(&x, params)
-                } else {
-                    KMeans::<T>::fit(&x, params)
-                }
+                T::kmeans_fit(data, case.backend, params, case.ctor / 3 == 1)
             })
         };
         let log = guard.log();
@@ -423,7 +461,8 @@ impl C12 {
                     d.f64s(c);
                 }
                 d.usizes(&size).usizes(&y);
-                let ctx = format!("KMeans::fit(n={}, p={}, k={}, max_iter={}, f32={})", n, p, case.k, case.max_iter, case.f32m);
+                let ctx = format!("KMeans::fit(n={}, p={}, k={}, max_iter={}, f32={}, matrix={})", n, p, case.k, case.max_iter, case.f32m, ["DenseMatrix", "ndarray", "ndarray(column-major)", "nalgebra"][(case.backend % 4) as usize]);
+                rep.count(["steps.fits-on-dense-matrix", "steps.fits-on-ndarray", "steps.fits-on-ndarray-column-major", "steps.fits-on-nalgebra"][(case.backend % 4) as usize], 1);
                 let s = scale_of(data, &cents);
                 let tol = tol_for(case.f32m, s, n, p);
                 if kk != case.k || cents.len() != case.k || size.len() != case.k || y.len() != n {
@@ -475,7 +514,6 @@ impl C12 {
                         // the model's own centroids are queries too (each must come back at distance zero,
                         // also the stale centroid of a cluster that ended up without rows)
                         q.extend(cents.iter().cloned());
-                        let qm: DenseMatrix<T> = to_t_matrix(&q);
                         let s2 = scale_of(&q, &cents);
                         let tol2 = tol_for(case.f32m, s2, n, p);
                         // every label must name a centroid at minimal distance from its row (src: row of q behind each label)
@@ -506,13 +544,11 @@ impl C12 {
                                 }
                             }
                         };
-                        let tof = |v: Vec<T>| -> Vec<f64> { v.iter().map(|x| x.to_f64().unwrap_or(f64::NAN)).collect() };
                         let ident: Vec<usize> = (0..q.len()).collect();
-                        match guarded(|| if case.ctor / 3 == 1 { Predictor::<DenseMatrix<T>, Vec<T>>::predict(&model, &qm) } else { model.predict(&qm) }) {
+                        match guarded(|| T::kmeans_predict(&model, &q, case.backend, case.ctor / 3 == 1)) {
                             Err(msg) => rep.fail("panic", "predict", format!("{}: predict panicked: {}", ctx, msg)),
                             Ok(Err(e)) => rep.fail("predict-error", "predict", format!("{}: predict failed: {}", ctx, e)),
                             Ok(Ok(lab)) => {
-                                let lab = tof(lab);
                                 d.f64s(&lab);
                                 judge("standard call", rep, &lab, &ident);
                             }
@@ -523,13 +559,12 @@ impl C12 {
                             let off = (case.tape.seed / 7 % m as u64) as usize;
                             let src: Vec<usize> = (0..case.many).map(|j| (j * stride + off + j / m) % m).collect();
                             let big: Vec<Vec<f64>> = src.iter().map(|s| q[*s].clone()).collect();
-                            let bm: DenseMatrix<T> = to_t_matrix(&big);
                             rep.count("fault.many-rows-in-one-call", 1);
                             rep.count("steps.rows-in-many-row-calls", src.len() as u64);
-                            match guarded(|| model.predict(&bm)) {
+                            match guarded(|| T::kmeans_predict(&model, &big, case.backend, false)) {
                                 Err(msg) => rep.fail("panic", "predict", format!("{}: predict on {} rows panicked: {}", ctx, src.len(), msg)),
                                 Ok(Err(e)) => rep.fail("predict-error", "predict", format!("{}: predict on {} rows failed: {}", ctx, src.len(), e)),
-                                Ok(Ok(lab)) => judge(&format!("one call with {} rows", src.len()), rep, &tof(lab), &src),
+                                Ok(Ok(lab)) => judge(&format!("one call with {} rows", src.len()), rep, &lab, &src),
                             }
                         }
                         if case.roundtrip > 0 && rep.violation.is_none() {
@@ -537,10 +572,10 @@ impl C12 {
                             rep.count("fault.model-restored-from-serialised-form", 1);
                             match restored {
                                 Err(e) => rep.fail("restore-failed", "model", format!("{}: the fitted model does not survive serialisation: {}", ctx, e)),
-                                Ok(m2) => match guarded(|| m2.predict(&qm)) {
+                                Ok(m2) => match guarded(|| T::kmeans_predict(&m2, &q, case.backend, false)) {
                                     Err(msg) => rep.fail("panic", "predict", format!("{}: restored model: predict panicked: {}", ctx, msg)),
                                     Ok(Err(e)) => rep.fail("predict-error", "predict", format!("{}: restored model: predict failed: {}", ctx, e)),
-                                    Ok(Ok(lab)) => judge("restored model", rep, &tof(lab), &ident),
+                                    Ok(Ok(lab)) => judge("restored model", rep, &lab, &ident),
                                 },
                             }
                         }
@@ -863,6 +898,7 @@ fn gen_case(batch: &str, _index: u64, seed: u64) -> Case {
             ctor: (_index % 6) as u8,
             many: 0,
             roundtrip: 0,
+            backend: 0,
         };
     }
     let mut r = Xo::fork(seed, "workload");
@@ -894,7 +930,7 @@ fn gen_case(batch: &str, _index: u64, seed: u64) -> Case {
         let mut k = pr.usize_in(2, 4);
         ensure_distinct(&mut data, &mut k, false);
         let max_iter = *pr.pick(&[1usize, 2, 3, 10]);
-        return Case { mode: "fit".into(), data, k, max_iter, f32m: false, centroids: vec![], queries: vec![], tape: TapeSpec::prng(tape_seed), kind: "deep-nest/prng".into(), ctor: pr.below(6) as u8, many: 0, roundtrip: 0 };
+        return Case { mode: "fit".into(), data, k, max_iter, f32m: false, centroids: vec![], queries: vec![], tape: TapeSpec::prng(tape_seed), kind: "deep-nest/prng".into(), ctor: pr.below(6) as u8, many: 0, roundtrip: 0, backend: 0 };
     }
     if batch == "fit-tie-lattice" {
         // one or two coordinates on a zero-centred lattice with a step that is not a dyadic rational (0.1, 1/3, 0.7,
@@ -908,7 +944,7 @@ fn gen_case(batch: &str, _index: u64, seed: u64) -> Case {
         let mut data = data;
         let mut k = pr.usize_in(2, 3).min(n);
         ensure_distinct(&mut data, &mut k, false);
-        return Case { mode: "fit".into(), data, k, max_iter: 100, f32m: false, centroids: vec![], queries: vec![], tape: TapeSpec::prng(tape_seed), kind: "tie-lattice/prng".into(), ctor: pr.below(6) as u8, many: 0, roundtrip: 0 };
+        return Case { mode: "fit".into(), data, k, max_iter: 100, f32m: false, centroids: vec![], queries: vec![], tape: TapeSpec::prng(tape_seed), kind: "tie-lattice/prng".into(), ctor: pr.below(6) as u8, many: 0, roundtrip: 0, backend: 0 };
     }
     let n = if crowded { pr.usize_in(4, 12) } else if pr.chance(0.5) { pr.usize_in(2, 40) } else { pr.usize_in(2, 300) };
     let p = if crowded { pr.usize_in(1, 2) } else { pr.usize_in(1, 6) };
@@ -1009,7 +1045,7 @@ fn gen_case(batch: &str, _index: u64, seed: u64) -> Case {
                 }
             }
         }
-        return Case { mode: "direct".into(), data, k, max_iter: 1, f32m, centroids: cents, queries: vec![], tape: TapeSpec::prng(tape_seed), kind: format!("{}/{}", dname, cname), ctor: 0, many: 0, roundtrip: 0 };
+        return Case { mode: "direct".into(), data, k, max_iter: 1, f32m, centroids: cents, queries: vec![], tape: TapeSpec::prng(tape_seed), kind: format!("{}/{}", dname, cname), ctor: 0, many: 0, roundtrip: 0, backend: 0 };
     }
     ensure_distinct(&mut data, &mut k, f32m);
     let max_iter = if pr.chance(0.6) { *pr.pick(&[1usize, 1, 2, 2, 3, 5, 10, 30, 100, 100]) } else { pr.usize_in(1, 100) };
@@ -1044,7 +1080,7 @@ fn gen_case(batch: &str, _index: u64, seed: u64) -> Case {
         _ => panic!("unknown batch {}", batch),
     }
     let ctor = pr.below(6) as u8;
-    Case { mode: "fit".into(), data, k, max_iter, f32m, centroids: vec![], queries, tape, kind, ctor, many: 0, roundtrip: 0 }
+    Case { mode: "fit".into(), data, k, max_iter, f32m, centroids: vec![], queries, tape, kind, ctor, many: 0, roundtrip: 0, backend: 0 }
 }
 
 impl Property for C12 {
@@ -1074,6 +1110,7 @@ impl Property for C12 {
             // (rows x k distance evaluations per call: the largest sizes are rare)
             c.many = if r.chance(0.004) { *r.pick(&[1030usize, 1030, 2060, 4100, 4100, 8200, 16_400, 65_600]) } else { 0 };
             c.roundtrip = if r.chance(0.2) { 1 + r.below(2) as u8 } else { 0 };
+            c.backend = if r.chance(0.25) { 1 + r.below(3) as u8 } else { 0 };
         }
         c
     }
